@@ -3,7 +3,7 @@
 package stack
 
 // C10: truncation and read-failure tolerance: every byte offset of generated
-// streams as the cut point x 4 end signals x deliveries.
+// streams as the cut point x 6 end signals x deliveries.
 
 import (
 	"bytes"
